@@ -248,7 +248,12 @@ where
                     let strat = CaseStrategy { gen };
                     let r = runner.run(&strat, |case| {
                         let v = if failed.get() {
-                            test(&case, None)
+                            // a panic of harness code on a candidate produced by the shrinker must not hide the
+                            // violation already found: such a candidate simply does not count as failing
+                            match std::panic::catch_unwind(std::panic::AssertUnwindSafe(|| test(&case, None))) {
+                                Ok(v) => v,
+                                Err(_) => Verdict::Ok,
+                            }
                         } else {
                             let mut st = stats.borrow_mut();
                             st.evaluations += 1;
